@@ -23,6 +23,7 @@ def build_tsdrv(b):
 
 
 def gen_cfg(name, threads, ncalls, k, forkers):
+    name = "%s.%d" % (name, os.getpid())               # concurrent runs of this check must not share generated files
     path = os.path.join(c.SPEC, name + ".cfg")
     with open(path, "w") as f:
         f.write("SPECIFICATION Spec\nCONSTANTS\n  Threads <- %s\n  NCalls = %d\n  Sections <- SecMeasured\n  MaxPreempt = %d\n"
@@ -201,7 +202,10 @@ def run_prop(prop, tier, seed):
             g = c.run_tlc("TsrmMC.tla", cfg, env={"SECTIONS_FILE": secfile}, heap="8g", timeout=2400, simulate=sim, depth=400, seed=seed, workers=8)
         else:
             g = c.run_tlc("TsrmMC.tla", cfg, env={"SECTIONS_FILE": secfile}, heap="24g", timeout=2400)
-        os.unlink(os.path.join(c.SPEC, cfg))
+        try:
+            os.unlink(os.path.join(c.SPEC, cfg))
+        except OSError:
+            pass
         rep.tlc(g)
         hists = [json.loads(x) for x in g.printed]
         if sim:
@@ -237,6 +241,46 @@ def run_prop(prop, tier, seed):
         if len(rep.cov["samples"]) < 3 and hists:
             h = hists[len(hists) // 2]
             rep.sample(dict(threads=nt, calls=nc, max_preemptions=k, schedule=" ".join("%s%d" % (s["a"][0].upper(), s["t"]) + ("'" if s["p"] else "") for s in h)))
+    if prop == "C10":
+        # fork probe: the schedules above park a thread at the END of a critical section (its effects done). Here thread 1 is stopped right AFTER its
+        # K-th acquisition of the mutex (section body not yet run; K = 1 in a fresh process is the very first instant the library holds a lock),
+        # another thread forks, child and grandchild exec. Tsrm!ForkStart/ForkLock: the fork waits for the mutex; in any case the child's calls complete.
+        nlocks = sum(1 for x in sections if x != "io")
+        probes = [(k, warm, var) for k in range(1, nlocks + 1) for warm in (0, 1) for var in (0, 1)]
+
+        def probe(pr):
+            k, warm, var = pr
+            plog = os.path.join(b["root"], "probe-%d-%d-%d.log" % pr)
+            pini = os.path.join(b["root"], "probe-%d-%d-%d.ini" % pr)
+            open(pini, "w").write('[snoopy]\nmessage_format = "%s"\noutput = file:%s\n' % (FMT, plog))
+            try:
+                p_ = subprocess.run([tsdrv, "forkprobe", pini, plog, str(k), str(warm), str(var)], capture_output=True, text=True, timeout=60, stdin=subprocess.DEVNULL)
+                return pr, json.loads(p_.stdout.strip().split("\n")[-1])
+            except (subprocess.TimeoutExpired, ValueError, IndexError):
+                return pr, None
+        early = 0
+        with ThreadPoolExecutor(max_workers=c.NCPU) as ex:
+            for pr, r in ex.map(probe, probes):
+                total += 1
+                nontriv += 1
+                if r is None:
+                    rep.violation("fork-probe:no-result", "fork probe K=%d warm=%d variant=%d did not finish within 60 s" % pr, dict(probe=pr))
+                    continue
+                if not r.get("reached"):
+                    continue
+                early += 1 if r.get("fork_returned_while_held") else 0
+                if r.get("child") != 1:
+                    r2 = probe(pr)[1]
+                    if r2 and r2.get("child") == 1:
+                        rep.assumptions.append("non-repeatable fork probe result ignored: %r" % (pr,))
+                        continue
+                    rep.violation("fork-probe:%s:%s" % ("first-call" if not pr[1] else "later-call", "child-first-forks" if pr[2] else "child-first-execs"),
+                                  "fork while another thread has just taken the repository mutex for the %d. time in its call (%s process): %s%s" % (
+                                      pr[0], "fresh" if not pr[1] else "warmed-up", r.get("note"), "; fork() returned while the mutex was still held" if r.get("fork_returned_while_held") else ""),
+                                  dict(acquisition=pr[0], warm=pr[1], variant=pr[2], result=r))
+        rep.cov["fork_probes"] = len(probes)
+        if early:
+            rep.drift.append("%d fork probes: fork() returned while another thread held the repository mutex (the specification lets it wait)" % early)
     if prop == "C09":
         total += tsan_stress(rep, tier)
     rep.cov["traces_validated_against_impl"] = total
